@@ -33,10 +33,11 @@ VARIABLES prog,       \* prog[p]: calls still to make
           peer,       \* items the peer will still send (script)
           avail,      \* how many of them have been delivered to the transport already
           failArmed,  \* the transport will fail the write of the closing tag (once)
-          dl,         \* the close deadline has passed (SetCloseDeadline)
+          dl,         \* the close deadline: "none", "armed" (SetCloseDeadline called), "passed"
+          broken,     \* a transmit failed in the transport (expired context): the encoder keeps the error
           sv          \* serve process state: [phase, reason, pending]
 
-vars == <<prog, cur, lock, outClosed, inClosed, wire, rets, peer, avail, failArmed, dl, sv>>
+vars == <<prog, cur, lock, outClosed, inClosed, wire, rets, peer, avail, failArmed, dl, broken, sv>>
 
 NoCall == [k |-> "none", st |-> "none", wrote |-> 0]
 Items == {"stanza", "stanza_reply", "stanza_herr", "close", "streamerr", "eof"}
@@ -47,7 +48,7 @@ Init ==
   /\ cur = [p \in Procs |-> NoCall]
   /\ lock = "free" /\ outClosed = FALSE /\ inClosed = FALSE
   /\ wire = <<>> /\ rets = [p \in Procs |-> <<>>]
-  /\ peer \in PeerScripts /\ avail = 0 /\ failArmed \in BOOLEAN /\ dl = FALSE
+  /\ peer \in PeerScripts /\ avail = 0 /\ failArmed \in BOOLEAN /\ dl = "none" /\ broken = FALSE
   /\ sv = [phase |-> "idle", reason |-> "none", owner |-> "none", pending |-> 0]
 
 -----------------------------------------------------------------------------
@@ -60,15 +61,16 @@ Begin(p) ==       \* the next call of p's program starts (before taking any lock
   /\ IF sv.owner = p /\ sv.phase \in {"reading", "closing"}
      THEN sv.pending > 0 /\ sv' = [sv EXCEPT !.pending = @ - 1]   \* only calls Serve itself issued
      ELSE UNCHANGED sv
-  /\ UNCHANGED <<lock, outClosed, inClosed, wire, rets, peer, avail, failArmed, dl>>
+  /\ UNCHANGED <<lock, outClosed, inClosed, wire, rets, peer, avail, failArmed, dl, broken>>
 
-NeedsOutLock(k) == k \in {"tx", "close", "senderr"}
+TxKinds == {"tx", "txc"}     \* "txc": a transmit call whose context is already done
+NeedsOutLock(k) == k \in TxKinds \cup {"close", "senderr"}
 
 Acquire(p) ==
   /\ cur[p].st = "entered" /\ NeedsOutLock(cur[p].k) /\ lock = "free"
   /\ lock' = p
   /\ cur' = [cur EXCEPT ![p].st = "holding"]
-  /\ UNCHANGED <<prog, outClosed, inClosed, wire, rets, peer, avail, failArmed, dl, sv>>
+  /\ UNCHANGED <<prog, outClosed, inClosed, wire, rets, peer, avail, failArmed, dl, broken, sv>>
 
 (* The body of the call is over: the lock (if held) is released here.  The caller   *)
 (* observes the return later (Ret): between the two other goroutines may run.       *)
@@ -81,69 +83,86 @@ Ret(p) ==
   /\ cur[p].st = "returning"
   /\ rets' = [rets EXCEPT ![p] = Append(@, [k |-> cur[p].k, class |-> cur[p].class])]
   /\ cur' = [cur EXCEPT ![p] = NoCall]
-  /\ UNCHANGED <<prog, lock, outClosed, inClosed, wire, peer, avail, failArmed, dl, sv>>
+  /\ UNCHANGED <<prog, lock, outClosed, inClosed, wire, peer, avail, failArmed, dl, broken, sv>>
 
 (* Transmit: refused once the output stream is closed (C10), otherwise writes its    *)
 (* element in one or more chunks while holding the lock (C05).                       *)
 TxRefuse(p) ==
-  /\ cur[p].k = "tx" /\ cur[p].st = "holding" /\ outClosed /\ cur[p].wrote = 0
+  /\ cur[p].k \in TxKinds /\ cur[p].st = "holding" /\ outClosed /\ cur[p].wrote = 0
   /\ "WriteAfterClose" \notin Dev
   /\ Return(p, "closed")
-  /\ UNCHANGED <<prog, outClosed, inClosed, wire, peer, avail, failArmed, dl, sv>>
+  /\ UNCHANGED <<prog, outClosed, inClosed, wire, peer, avail, failArmed, dl, broken, sv>>
 
 TxWrite(p) ==
-  /\ cur[p].k = "tx" /\ cur[p].st = "holding"
+  /\ cur[p].k \in TxKinds /\ cur[p].st = "holding" /\ ~broken
   /\ (~outClosed \/ "WriteAfterClose" \in Dev)
   /\ cur[p].wrote < MaxChunks
   /\ wire' = Append(wire, [p |-> p, what |-> "elem", c |-> Len(rets[p])])
   /\ cur' = [cur EXCEPT ![p].wrote = @ + 1]
-  /\ UNCHANGED <<prog, lock, outClosed, inClosed, rets, peer, avail, failArmed, dl, sv>>
+  /\ UNCHANGED <<prog, lock, outClosed, inClosed, rets, peer, avail, failArmed, dl, broken, sv>>
 
 TxDone(p) ==
-  /\ cur[p].k = "tx" /\ cur[p].st = "holding" /\ cur[p].wrote >= 1
+  /\ cur[p].k \in TxKinds /\ cur[p].st = "holding" /\ cur[p].wrote >= 1 /\ ~broken
   /\ Return(p, "nil")
-  /\ UNCHANGED <<prog, outClosed, inClosed, wire, peer, avail, failArmed, dl, sv>>
+  /\ UNCHANGED <<prog, outClosed, inClosed, wire, peer, avail, failArmed, dl, broken, sv>>
+
+(* A transmit call whose context is done may be interrupted in the transport (the write   *)
+(* deadline): it reports the error, and the encoder keeps it - every later write fails     *)
+(* without reaching the transport.  It may as well go through like any other call.         *)
+TxcFail(p) ==
+  /\ cur[p].k = "txc" /\ cur[p].st = "holding" /\ ~outClosed /\ ~broken
+  /\ broken' = TRUE
+  /\ Return(p, "other")
+  /\ dl' = (IF "TxDisarmsDeadline" \in Dev THEN "none" ELSE dl)
+  /\ UNCHANGED <<prog, outClosed, inClosed, wire, peer, avail, failArmed, sv>>
+
+TxBroken(p) ==
+  /\ cur[p].k \in TxKinds /\ cur[p].st = "holding" /\ ~outClosed /\ broken
+  /\ Return(p, "other")
+  /\ UNCHANGED <<prog, outClosed, inClosed, wire, peer, avail, failArmed, dl, broken, sv>>
 
 (* Close: writes the closing tag exactly once, whoever gets there first.             *)
 CloseWrite(p) ==
-  /\ cur[p].k \in {"close", "senderr"} /\ cur[p].st = "holding" /\ ~outClosed /\ ~failArmed
+  /\ cur[p].k \in {"close", "senderr"} /\ cur[p].st = "holding" /\ ~failArmed
+  /\ (~outClosed \/ ("CloseTwice" \in Dev /\ cur[p].wrote = 0))
+  \* (also when the encoder is broken: the closing tag does not go through it)
   \* (the property does not require that the error element reaches the wire before the
   \*  closing tag - the pinned tests even expect that it does not; if written it goes first)
   /\ outClosed' = TRUE
   /\ wire' = Append(wire, [p |-> p, what |-> "close", c |-> Len(rets[p])])
-  /\ UNCHANGED <<prog, cur, lock, inClosed, rets, peer, avail, failArmed, dl, sv>>
+  /\ UNCHANGED <<prog, cur, lock, inClosed, rets, peer, avail, failArmed, dl, broken, sv>>
 
 (* The transport fails the write of the closing tag: the stream is closed all the same -  *)
 (* a later Close must not write the tag again and transmit calls are refused - and the     *)
 (* call reports the error.                                                                 *)
 CloseWriteFail(p) ==
-  /\ cur[p].k \in {"close", "senderr"} /\ cur[p].st = "holding" /\ ~outClosed /\ failArmed
-  /\ outClosed' = TRUE /\ failArmed' = FALSE
+  /\ cur[p].k \in {"close", "senderr"} /\ cur[p].st = "holding" /\ ~outClosed /\ (failArmed \/ broken)
+  /\ outClosed' = TRUE /\ failArmed' = (IF broken THEN failArmed ELSE FALSE)
   /\ Return(p, "other")
-  /\ UNCHANGED <<prog, inClosed, wire, peer, avail, dl, sv>>
+  /\ UNCHANGED <<prog, inClosed, wire, peer, avail, dl, broken, sv>>
 
 ErrWrite(p) ==
-  /\ cur[p].k = "senderr" /\ cur[p].st = "holding" /\ ~outClosed /\ cur[p].wrote = 0
+  /\ cur[p].k = "senderr" /\ cur[p].st = "holding" /\ ~outClosed /\ cur[p].wrote = 0 /\ ~broken
   /\ wire' = Append(wire, [p |-> p, what |-> "err", c |-> Len(rets[p])])
   /\ cur' = [cur EXCEPT ![p].wrote = 1]
-  /\ UNCHANGED <<prog, lock, outClosed, inClosed, rets, peer, avail, failArmed, dl, sv>>
+  /\ UNCHANGED <<prog, lock, outClosed, inClosed, rets, peer, avail, failArmed, dl, broken, sv>>
 
 CloseDone(p) ==
   /\ cur[p].k \in {"close", "senderr"} /\ cur[p].st = "holding" /\ outClosed
   /\ Return(p, "nil")
-  /\ UNCHANGED <<prog, outClosed, inClosed, wire, peer, avail, failArmed, dl, sv>>
+  /\ UNCHANGED <<prog, outClosed, inClosed, wire, peer, avail, failArmed, dl, broken, sv>>
 
 (* Input side *)
 CloseInput(p) ==
   /\ cur[p].k = "closeinput" /\ cur[p].st = "entered"
   /\ inClosed' = TRUE
   /\ Return(p, "nil")
-  /\ UNCHANGED <<prog, outClosed, wire, peer, avail, failArmed, dl, sv>>
+  /\ UNCHANGED <<prog, outClosed, wire, peer, avail, failArmed, dl, broken, sv>>
 
 Rx(p) ==          \* a read attempt after Serve is over
   /\ cur[p].k = "rx" /\ cur[p].st = "entered"
   /\ Return(p, IF inClosed THEN "inclosed" ELSE "other")
-  /\ UNCHANGED <<prog, outClosed, inClosed, wire, peer, avail, failArmed, dl, sv>>
+  /\ UNCHANGED <<prog, outClosed, inClosed, wire, peer, avail, failArmed, dl, broken, sv>>
 
 -----------------------------------------------------------------------------
 (* Serve: one item of peer input at a time.  The serve call stays current while the *)
@@ -153,11 +172,11 @@ ServeStart(p) ==
   /\ cur[p].k = "serve" /\ cur[p].st = "entered" /\ sv.phase = "idle"
   /\ sv' = [sv EXCEPT !.phase = "reading", !.owner = p]
   /\ cur' = [cur EXCEPT ![p] = NoCall]           \* sub-calls follow; ServeRet ends it
-  /\ UNCHANGED <<prog, lock, outClosed, inClosed, wire, rets, peer, avail, failArmed, dl>>
+  /\ UNCHANGED <<prog, lock, outClosed, inClosed, wire, rets, peer, avail, failArmed, dl, broken>>
 
 PeerFeed ==
   /\ avail < Len(peer) /\ avail' = avail + 1
-  /\ UNCHANGED <<prog, cur, lock, outClosed, inClosed, wire, rets, peer, failArmed, dl, sv>>
+  /\ UNCHANGED <<prog, cur, lock, outClosed, inClosed, wire, rets, peer, failArmed, dl, broken, sv>>
 
 ServeItem(p) ==
   /\ sv.phase = "reading" /\ sv.owner = p /\ sv.pending = 0 /\ cur[p] = NoCall /\ avail > 0
@@ -179,30 +198,35 @@ ServeItem(p) ==
                   /\ sv' = [sv EXCEPT !.phase = "closing", !.reason = "eof", !.pending = 2]
                \/ /\ prog' = [prog EXCEPT ![p] = <<"senderr", "closeinput", "close">> \o @]
                   /\ sv' = [sv EXCEPT !.phase = "closing", !.reason = "eof", !.pending = 3]
-  /\ UNCHANGED <<cur, lock, outClosed, inClosed, wire, rets, failArmed, dl>>
+  /\ UNCHANGED <<cur, lock, outClosed, inClosed, wire, rets, failArmed, dl, broken>>
 
 (* A reply the handler could not write because the output stream was closed locally  *)
 (* ends Serve with that error (the property does not say Serve must go on).          *)
 (* The close deadline passes (an asynchronous event: it overtakes input that was not read  *)
 (* yet): Serve ends with an error, by either shutdown path.                                *)
+(* SetCloseDeadline arms it; it passes later (or at once, when set to a time in the past).  *)
+(* Nothing else disarms it: in particular no transmit call, whatever becomes of its context. *)
+DeadlineSet ==
+  /\ dl = "none" /\ dl' = "armed"
+  /\ UNCHANGED <<prog, cur, lock, outClosed, inClosed, wire, rets, peer, avail, failArmed, broken, sv>>
 Deadline ==
-  /\ ~dl /\ dl' = TRUE
-  /\ UNCHANGED <<prog, cur, lock, outClosed, inClosed, wire, rets, peer, avail, failArmed, sv>>
+  /\ dl # "passed" /\ dl' = "passed"
+  /\ UNCHANGED <<prog, cur, lock, outClosed, inClosed, wire, rets, peer, avail, failArmed, broken, sv>>
 
 ServeDeadline(p) ==
-  /\ sv.phase = "reading" /\ sv.owner = p /\ sv.pending = 0 /\ cur[p] = NoCall /\ dl
+  /\ sv.phase = "reading" /\ sv.owner = p /\ sv.pending = 0 /\ cur[p] = NoCall /\ dl = "passed"
   /\ \/ /\ prog' = [prog EXCEPT ![p] = <<"closeinput", "close">> \o @]
         /\ sv' = [sv EXCEPT !.phase = "closing", !.reason = "deadline", !.pending = 2]
      \/ /\ prog' = [prog EXCEPT ![p] = <<"senderr", "closeinput", "close">> \o @]
         /\ sv' = [sv EXCEPT !.phase = "closing", !.reason = "deadline", !.pending = 3]
-  /\ UNCHANGED <<cur, lock, outClosed, inClosed, wire, rets, peer, avail, failArmed, dl>>
+  /\ UNCHANGED <<cur, lock, outClosed, inClosed, wire, rets, peer, avail, failArmed, dl, broken>>
 
 ServeAbort(p) ==
   /\ sv.phase = "reading" /\ sv.owner = p /\ sv.pending = 0 /\ cur[p] = NoCall
-  /\ rets[p] # <<>> /\ rets[p][Len(rets[p])] = [k |-> "tx", class |-> "closed"]
+  /\ rets[p] # <<>> /\ rets[p][Len(rets[p])] \in {[k |-> "tx", class |-> "closed"], [k |-> "tx", class |-> "other"]}
   /\ prog' = [prog EXCEPT ![p] = <<"senderr", "closeinput", "close">> \o @]
   /\ sv' = [sv EXCEPT !.phase = "closing", !.reason = "refused", !.pending = 3]
-  /\ UNCHANGED <<cur, lock, outClosed, inClosed, wire, rets, peer, avail, failArmed, dl>>
+  /\ UNCHANGED <<cur, lock, outClosed, inClosed, wire, rets, peer, avail, failArmed, dl, broken>>
 
 (* Serve returns once its shutdown calls are done: nil after the peer's close, the   *)
 (* error otherwise; both directions are closed.                                      *)
@@ -217,13 +241,13 @@ ServeRet(p, class) ==
        [] OTHER -> class = "other"
   /\ sv' = [sv EXCEPT !.phase = "done"]
   /\ rets' = [rets EXCEPT ![p] = Append(@, [k |-> "serve", class |-> class])]
-  /\ UNCHANGED <<prog, cur, lock, outClosed, inClosed, wire, peer, avail, failArmed, dl>>
+  /\ UNCHANGED <<prog, cur, lock, outClosed, inClosed, wire, peer, avail, failArmed, dl, broken>>
 
 -----------------------------------------------------------------------------
 Next ==
-  \/ PeerFeed \/ Deadline
+  \/ PeerFeed \/ Deadline \/ DeadlineSet
   \/ \E p \in Procs :
-      \/ Begin(p) \/ Ret(p) \/ Acquire(p) \/ TxRefuse(p) \/ TxWrite(p) \/ TxDone(p)
+      \/ Begin(p) \/ Ret(p) \/ Acquire(p) \/ TxRefuse(p) \/ TxWrite(p) \/ TxDone(p) \/ TxcFail(p) \/ TxBroken(p)
       \/ CloseWrite(p) \/ CloseWriteFail(p) \/ ErrWrite(p) \/ CloseDone(p) \/ CloseInput(p) \/ Rx(p)
       \/ ServeStart(p) \/ ServeItem(p) \/ ServeAbort(p) \/ ServeDeadline(p)
       \/ \E c \in {"nil", "streamerr", "other", "closed"} : ServeRet(p, c)
@@ -238,11 +262,14 @@ CloseIdx == {i \in 1..Len(wire) : wire[i].what = "close"}
 
 C10_OneCloseTag == Cardinality(CloseIdx) <= 1
 C10_NothingAfterClose == \A i \in CloseIdx : i = Len(wire)
-C10_ClosedIffTag == (CloseIdx # {} => outClosed) /\ (outClosed /\ CloseIdx = {} => ~failArmed)  \* closed without a tag only after the write fault
+C10_ClosedIffTag == (CloseIdx # {} => outClosed) /\ (outClosed /\ CloseIdx = {} => ~failArmed \/ broken)  \* closed without a tag only after the write fault
 (* a transmit call returns nil only if it wrote, and "closed" only if it wrote nothing *)
 C10_SendersRefused ==
   \A p \in Procs : \A i \in 1..Len(rets[p]) :
-     rets[p][i].k = "tx" => rets[p][i].class \in {"nil", "closed"}
+     rets[p][i].k \in TxKinds =>
+        (rets[p][i].class \in {"nil", "closed"} \/ (rets[p][i].class = "other" /\ broken))  \* "other" only after a transport failure
+(* the close deadline, once set, is disarmed by nobody and stays passed once it has passed *)
+C10_DeadlineKept == [][(dl = "armed" => dl' \in {"armed", "passed"}) /\ (dl = "passed" => dl' = "passed")]_vars
 C10_BothClosedAfterServe == sv.phase = "done" => outClosed /\ inClosed
 C10_ReadsRefused ==
   \A p \in Procs : \A i \in 1..Len(rets[p]) :
@@ -252,7 +279,7 @@ C10_ReadsRefused ==
 (* there is no write of anybody else.  Calls are delimited by the lock, so: whenever  *)
 (* somebody holds the lock with k writes done, the last k wire entries are his.       *)
 C05_Contiguous ==
-  \A p \in Procs : cur[p].st = "holding" /\ cur[p].wrote > 0 /\ cur[p].k = "tx" =>
+  \A p \in Procs : cur[p].st = "holding" /\ cur[p].wrote > 0 /\ cur[p].k \in TxKinds =>
      /\ Len(wire) >= cur[p].wrote
      /\ \A i \in (Len(wire) - cur[p].wrote + 1)..Len(wire) : wire[i].p = p /\ wire[i].what = "elem"
 C05_WritesUnderLock == [][\A p \in Procs : Len(wire') > Len(wire) => lock = wire'[Len(wire')].p]_vars
@@ -261,11 +288,12 @@ C05_WritesUnderLock == [][\A p \in Procs : Len(wire') > Len(wire) => lock = wire
 (* driver's wire parse (event wire_parsed); on the model: no elem write without call. *)
 C05_NoStrayWrites ==
   \A i \in 1..Len(wire) : wire[i].what = "elem" =>
-     \/ \E j \in 1..Len(rets[wire[i].p]) : rets[wire[i].p][j].k = "tx" /\ rets[wire[i].p][j].class = "nil"
-     \/ cur[wire[i].p].k = "tx"
+     \/ \E j \in 1..Len(rets[wire[i].p]) : rets[wire[i].p][j].k \in TxKinds /\ rets[wire[i].p][j].class = "nil"
+     \/ cur[wire[i].p].k \in TxKinds
+     \/ broken /\ \E j \in 1..Len(rets[wire[i].p]) : rets[wire[i].p][j] = [k |-> "txc", class |-> "other"]
 
 (* liveness (FairSpec, no deviations): every program finishes, Serve returns *)
 Terminates == <>(\A p \in Procs : prog[p] = <<>> /\ cur[p] = NoCall)
 
-View == <<prog, cur, lock, outClosed, inClosed, wire, rets, peer, avail, failArmed, dl, sv>>
+View == <<prog, cur, lock, outClosed, inClosed, wire, rets, peer, avail, failArmed, dl, broken, sv>>
 =============================================================================
